@@ -62,6 +62,8 @@ struct C15 : Prop {
 			bus.set("nodes", ns2); plan.set("bus", bus);
 			J hl = J::obj(); hl.set("hub", pc::jaddr(hub_addr)); hl.set("on_getall_of", pc::jaddr(trig_addr)); plan.set("hub_login_during_enum", hl);
 		}
+		// a slow interface: from the n-th node table row on every row is 2.1-3.5 s late (the enumeration has to wait for it)
+		if (r.chance(120)) { J bus = plan["bus"]; J td = J::arr(); J e = J::arr(); e.push((int) MSG_NODETAB); e.push((int) r.range(1, 5)); e.push((int) r.range(2100, 3500)); td.push(e); bus.set("type_delays", td); plan.set("bus", bus); }
 		J se = cfg::normal_session(0, r.coin() ? 0 : (int) r.range(5, 40));
 		// table change during the enumeration: only nodes that are not configured (a configured board that vanishes is the subject of a separate,
 		// counted sub-workload below because the start-up dialogue has no timeouts for its answers)
